@@ -26,6 +26,13 @@ DETERMINIZE = [
     "account_export.go", "pkg/secretstore/device_keystore_wrapper.go",
 ]
 
+# The same rewrite for files of the replication dependencies whose map iteration decides the order of fetches and
+# head exchanges (their goroutines are otherwise uninstrumented).
+DETERMINIZE_DEPS = {
+    "berty.tech/go-orbit-db": ["stores/replicator/replicator.go", "baseorbitdb/orbitdb.go", "pubsub/oneonone/channel.go"],
+    "berty.tech/go-ipfs-log": ["entry/entry_map.go", "entry/entry.go"],
+}
+
 CHECKS = {
     "C18": {
         "pkg": "pkg/protoio",
